@@ -5,6 +5,7 @@ import (
 	"sort"
 	"time"
 
+	"github.com/segmentio/kafka-go/protocol/fetch"
 	"github.com/segmentio/kafka-go/protocol/joingroup"
 	"github.com/segmentio/kafka-go/protocol/syncgroup"
 )
@@ -88,6 +89,36 @@ func (g *Group) memberIDs() []string {
 // holdIfNeeded marks join/sync requests that must wait for a barrier (lock held).
 func (c *Cluster) holdIfNeeded(e *Entry) {
 	switch req := e.Msg.(type) {
+	case *fetch.Request:
+		// long poll: a fetch that would return no data is held for MaxWaitTime (or until data arrives)
+		if c.NoLongPoll || req.MaxWaitTime <= 0 {
+			return
+		}
+		for _, t := range req.Topics {
+			for _, p := range t.Partitions {
+				part := c.Part(t.Topic, int(p.Partition))
+				if part == nil || part.Err != 0 || part.Leader != e.Broker || p.FetchOffset != part.End {
+					return
+				}
+			}
+		}
+		e.Held = true
+		e.longPoll = true
+		time.AfterFunc(time.Duration(req.MaxWaitTime)*time.Millisecond, func() {
+			c.mu.Lock()
+			was := e.Held && !e.done && e.Answer != "stall"
+			if was {
+				e.Held = false
+			}
+			auto := c.Auto
+			c.mu.Unlock()
+			if was {
+				if auto {
+					c.autoAnswer()
+				}
+				c.event()
+			}
+		})
 	case *joingroup.Request:
 		g := c.group(req.GroupID)
 		if req.MemberID != "" && g.Members[req.MemberID] == nil {
@@ -208,6 +239,21 @@ func (c *Cluster) tryCompleteJoin(g *Group) {
 
 // releaseBarriers un-holds requests whose barrier is complete (lock held).
 func (c *Cluster) releaseBarriers() {
+	for _, sc := range c.Conns {
+		for _, e := range sc.pending {
+			if e.longPoll && e.Held && e.Answer != "stall" {
+				if req, ok := e.Msg.(*fetch.Request); ok {
+					for _, t := range req.Topics {
+						for _, p := range t.Partitions {
+							if part := c.Part(t.Topic, int(p.Partition)); part != nil && p.FetchOffset < part.End {
+								e.Held = false
+							}
+						}
+					}
+				}
+			}
+		}
+	}
 	for _, g := range c.Groups {
 		c.tryCompleteJoin(g)
 		if g.State == "Stable" {
